@@ -13,6 +13,8 @@ pub mod c06;
 pub mod c07;
 pub mod c08;
 pub mod c09;
+pub mod c10;
+pub mod c11;
 pub mod c12;
 pub mod c13;
 pub mod c14;
@@ -20,6 +22,7 @@ pub mod c16;
 pub mod c17;
 pub mod c18;
 pub mod c19;
+pub mod c20;
 pub mod c15;
 
 /// Names of the fields in which two difficulty attribute values differ (bitwise for floats).
@@ -128,6 +131,8 @@ pub fn lookup(prop: &str) -> Option<CaseFn> {
         "C07" => c07::case,
         "C08" => c08::case,
         "C09" => c09::case,
+        "C10" => c10::case,
+        "C11" => c11::case,
         "C12" => c12::case,
         "C13" => c13::case,
         "C14" => c14::case,
@@ -135,6 +140,7 @@ pub fn lookup(prop: &str) -> Option<CaseFn> {
         "C17" => c17::case,
         "C18" => c18::case,
         "C19" => c19::case,
+        "C20" => c20::case,
         "C15" => c15::case,
         _ => return None,
     })
